@@ -117,6 +117,43 @@ def _r5_no_invented_message(P: Project, R: Report) -> None:
     R.need(n >= 2, "anchor: the registration/removal obligations of the legacy SSE request path were not produced")
 
 
+def _taken_from_worklist(f, v: ast.AST, item: str) -> bool:
+    """`item = work.pop()` with `work` a local list that only ever holds parsed objects: it starts as a display of the
+    function's parameters and all that is ever added to it are members of an item taken from it (`work.extend(reversed(item))`,
+    `work.append(item[i])`) — the iterative spelling of a loop over a batch and its members."""
+    if not (isinstance(v, ast.Call) and isinstance(v.func, ast.Attribute) and v.func.attr == "pop" and isinstance(v.func.value, ast.Name) and not v.keywords and all(isinstance(a, ast.Constant) and isinstance(a.value, int) for a in v.args)):
+        return False
+    w = v.func.value.id
+    params = set(f.params())
+    binds = [s for s in walk_local(f.node) if (isinstance(s, ast.Assign) and any(isinstance(t, ast.Name) and t.id == w for t in s.targets)) or (isinstance(s, ast.AnnAssign) and isinstance(s.target, ast.Name) and s.target.id == w)]
+    if len(binds) != 1 or not isinstance(binds[0].value, ast.List) or not all(isinstance(e, ast.Name) and e.id in params for e in binds[0].value.elts):
+        return False
+
+    def strip(e):
+        while isinstance(e, ast.Call) and isinstance(e.func, ast.Name) and e.func.id in ("reversed", "list", "tuple") and len(e.args) == 1 and not e.keywords:
+            e = e.args[0]
+        return e
+
+    for c in walk_local(f.node):
+        if isinstance(c, ast.Call) and isinstance(c.func, ast.Attribute) and isinstance(c.func.value, ast.Name) and c.func.value.id == w:
+            if c.func.attr == "pop":
+                continue
+            if c.func.attr in ("extend", "append") and len(c.args) == 1 and not c.keywords:
+                e = strip(c.args[0])
+                if isinstance(e, ast.Subscript):
+                    e = e.value
+                if isinstance(e, ast.Name) and (e.id == item or e.id in params):
+                    continue
+            return False
+    # nothing else touches the list (no element store, no handing it on)
+    for n in walk_local(f.node):
+        if isinstance(n, ast.Name) and n.id == w and isinstance(n.ctx, ast.Load):
+            pass
+        if isinstance(n, ast.Subscript) and isinstance(n.value, ast.Name) and n.value.id == w and not isinstance(n.ctx, ast.Load):
+            return False
+    return True
+
+
 def _check_main(P: Project, R: Report) -> None:
     R.rule("R1", "nothing rewritten on the way in: in every carrier the value handed to the message constructor is the parsed JSON object itself (a bare name bound to json.loads / response.json() / a parameter), and no statement of the carrier assigns, deletes or mutates a member of an object that reaches the constructor")
     R.rule("R2", "id integrity: no envelope a carrier synthesises takes its id from a converted copy (str(), int(), …) of the request's id")
@@ -152,6 +189,7 @@ def _check_main(P: Project, R: Report) -> None:
                     v = d.value
                     src = ast.unparse(v)
                     good = (isinstance(v, ast.Call) and (call_name(v).endswith("json.loads") or call_name(v).endswith(".json"))) or (isinstance(v, ast.Await) and "wait_for" in src) or isinstance(v, ast.Dict)
+                    good = good or _taken_from_worklist(f, v, nme)
                     if not good:
                         ok = False
                         why = f"`{nme} = {src[:50]}`"
@@ -188,7 +226,9 @@ def _check_main(P: Project, R: Report) -> None:
                     a = c.args[0]
                     # … or the decoder call itself (`route(response.json())`, `route(json.loads(text))`): nothing in between
                     direct_parse = isinstance(a, ast.Call) and not a.keywords and ((isinstance(a.func, ast.Attribute) and a.func.attr == "json" and not a.args) or (call_name(a).split(".")[-1] == "loads" and len(a.args) == 1 and isinstance(a.args[0], (ast.Name, ast.Attribute))))
-                    R.ob("R1", f"{cname}:{f.qual}: hands `{c.func.attr}` a bare name", isinstance(a, ast.Name) or _pure_take(a) or direct_parse, f"{m.rel}:{c.lineno}", f"argument `{ast.unparse(a)[:60]}`")
+                    # … or an envelope the carrier writes out itself on the spot (no inbound object involved; its members are R2's subject)
+                    synthesised = isinstance(a, ast.Dict) and all(isinstance(k, ast.Constant) for k in a.keys) and any(k.value == "jsonrpc" for k in a.keys)
+                    R.ob("R1", f"{cname}:{f.qual}: hands `{c.func.attr}` a bare name", isinstance(a, ast.Name) or _pure_take(a) or direct_parse or synthesised, f"{m.rel}:{c.lineno}", f"argument `{ast.unparse(a)[:60]}`")
                     if isinstance(a, ast.Name):
                         bad = _rewritten_origin(f, a.id)
                         R.ob("R1", f"{cname}:{f.qual}: what `{c.func.attr}` receives is a parsed or synthesised object, not a rewritten copy", bad is None, f"{m.rel}:{c.lineno}",
